@@ -37,6 +37,9 @@ REQUIRED_TALLIES = [('selector_kind', 'list'), ('selector_kind', 'slice'), ('sel
 ALL = ('all',)
 
 
+TECHNIQUE = 'runtime monitoring: agreement oracle (tuple-sequence model vs every view of an IndexHierarchy) and an executable HLoc model over exhaustive per-depth selector spaces, for every construction route and grow-only history'
+
+
 def probes(ctx):
     return []
 
